@@ -75,24 +75,24 @@ func (am *YAMLAccountManager) Create(account hotline.Account) error {
 	am.mu.Lock()
 	defer am.mu.Unlock()
 
-	// Create account file, returning an error if one already exists.
-	file, err := os.OpenFile(
-		filepath.Join(am.accountDir, path.Join("/", account.Login+".yaml")),
-		os.O_CREATE|os.O_EXCL|os.O_WRONLY, 0644,
-	)
-	if err != nil {
-		return fmt.Errorf("create account file: %w", err)
-	}
-	defer file.Close()
-
 	b, err := yaml.Marshal(account)
 	if err != nil {
 		return fmt.Errorf("marshal account to YAML: %v", err)
 	}
 
-	_, err = file.Write(b)
-	if err != nil {
+	// Write the complete account to a temporary file and publish it under its final name with a hard link, which
+	// fails if an account file with that name already exists.  The account file is never seen empty or half
+	// written, also after a crash.
+	accountPath := filepath.Join(am.accountDir, path.Join("/", account.Login+".yaml"))
+	tempFilePath := accountPath + ".tmp"
+
+	if err := os.WriteFile(tempFilePath, b, 0644); err != nil {
 		return fmt.Errorf("write account file: %w", err)
+	}
+	defer os.Remove(tempFilePath)
+
+	if err := os.Link(tempFilePath, accountPath); err != nil {
+		return fmt.Errorf("create account file: %w", err)
 	}
 
 	am.accounts[account.Login] = account
